@@ -70,7 +70,7 @@ for l in open("/verif/properties.jsonl"):
         prop = d
 print(f"""You are helping to evaluate a verification tool by writing realistic, subtle bugs.
 
-The directory {wt} is a scratch git worktree of the Python library `skchange` (changepoint and anomaly detection built on interval scorers; sktime-compatible). Work ONLY inside {wt}. Never read or modify /repo or /verif (or anything under them).
+The directory {wt} is a scratch git worktree of the Python library `skchange` (changepoint and anomaly detection built on interval scorers; sktime-compatible). Work ONLY inside {wt}. Never read or modify /repo or /verif (or anything under them). Do not use `git stash` (the stash is shared between all worktrees of the repository): revert with `git checkout -- skchange` and keep your changes as patch files.
 
 Python: use `/venv/bin/python`. To make sure the worktree's copy of the library is the one imported, always run from the worktree root with PYTHONPATH set, e.g.
     cd {wt} && PYTHONPATH={wt} /venv/bin/python -c "import skchange; print(skchange.__file__)"
